@@ -169,9 +169,25 @@ impl BaseGrid {
         let dlat = header[4].copysign(lat_s - lat_n);
         let dlon = header[5].copysign(lon_e - lon_w);
         let bands = header[6] as usize;
+
+        // A header with non-numbers in it, or with a zero increment, describes no grid
+        if header.iter().take(6).any(|h| !h.is_finite()) || dlat == 0. || dlon == 0. {
+            return Err(Error::General("Malformed header"));
+        }
+
         let rows = ((lat_s - lat_n) / dlat + 1.5).floor() as usize;
         let cols = ((lon_e - lon_w) / dlon + 1.5).floor() as usize;
-        let elements = rows * cols * bands;
+
+        // Interpolation needs at least one full cell, and a number of elements we can count
+        let Some(elements) = rows
+            .checked_mul(cols)
+            .and_then(|nodes| nodes.checked_mul(bands))
+        else {
+            return Err(Error::General("Malformed grid"));
+        };
+        if rows < 2 || cols < 2 {
+            return Err(Error::General("Malformed grid"));
+        }
 
         let offset = offset.unwrap_or(0);
 
@@ -290,12 +306,20 @@ fn gravsoft_grid_reader(buf: &[u8]) -> Result<(Vec<f64>, Vec<f32>), Error> {
     let dlon = header[5].copysign(lon_e - lon_w);
     let rows = ((lat_s - lat_n) / dlat + 1.5).floor() as usize;
     let cols = ((lon_e - lon_w) / dlon + 1.5).floor() as usize;
-    let bands = grid.len() / (rows * cols);
-    if (rows * cols * bands) > grid.len() || bands < 1 {
+
+    // Degenerate headers (non-numbers, zero or absurdly small increments)
+    // give no nodes, or more than we can count
+    let nodes = rows.checked_mul(cols).unwrap_or(0);
+    if nodes == 0 {
+        return Err(Error::General("Malformed Gravsoft header"));
+    }
+
+    let bands = grid.len() / nodes;
+    if bands < 1 {
         return Err(Error::General("Incomplete Gravsoft grid"));
     }
 
-    if (rows * cols * bands) != grid.len() {
+    if (nodes * bands) != grid.len() {
         return Err(Error::General(
             "Unrecognized material at end of Gravsoft grid",
         ));
